@@ -64,11 +64,13 @@ private:
     // Expressions //
     //-------------//
     Action visitIdentifierName(const IdentifierNameSyntax*) override;
+    Action visitMemberAccessExpression(const MemberAccessExpressionSyntax*) override;
 
     //------------//
     // Statements //
     //------------//
     Action visitCompoundStatement(const CompoundStatementSyntax*) override;
+    Action visitGotoStatement(const GotoStatementSyntax*) override;
 
     //-------------//
     // Ambiguities //
